@@ -434,6 +434,53 @@ theorem go_clean (p : Params) (l : List Item) (n : Nat) :
             subst hnb
             exact step_clean hstep
 
+/-! ## the last line -/
+
+theorem go_last (p : Params) (l : List Item) (n : Nat) :
+    ∀ (bs : List Nat) (idx start : Nat) (pending : Option (List Elem)) (lo : Nat) (lines : List Line),
+      validFrom l lo bs = true → go p l n idx start pending bs = .ok lines →
+      ∃ ln, lines.getLast? = some ln ∧ ln.brk = [] ∧ ∃ k, ln.body = l.drop k := by
+  intro bs
+  induction bs with
+  | nil => intro idx start pending lo lines hv; simp [validFrom] at hv
+  | cons b rest ih =>
+    intro idx start pending lo lines hv h
+    simp only [go] at h
+    split at h
+    · simp at h
+    · rename_i ln0 start' pend' hstep
+      split at h
+      · simp at h
+      · rename_i ls hgo
+        simp only [Except.ok.injEq] at h
+        subst h
+        cases rest with
+        | nil =>
+          simp only [go, Except.ok.injEq] at hgo
+          subst hgo
+          obtain ⟨hsb, hbl, brk, skip, k, w, pen, hbrk, _, _, _, _, hln, _⟩ := step_ok hstep
+          simp only [validFrom, Bool.and_eq_true, decide_eq_true_eq] at hv
+          have hnone : l[b]? = none := by rw [hv.2]; simp
+          rw [hnone] at hbrk
+          simp only [breakPart, Except.ok.injEq, Prod.mk.injEq] at hbrk
+          refine ⟨ln0, by simp, ?_, start, ?_⟩
+          · rw [hln]; exact hbrk.1.symm
+          · rw [hln]
+            apply List.take_of_length_le
+            simp; omega
+        | cons nb r =>
+          simp only [validFrom, Bool.and_eq_true, decide_eq_true_eq] at hv
+          obtain ⟨_, hv2⟩ := hv
+          cases hit : l[b]? with
+          | none => rw [hit] at hv2; simp at hv2
+          | some it =>
+            rw [hit] at hv2
+            simp only [Bool.and_eq_true] at hv2
+            obtain ⟨ln, h1, h2⟩ := ih (idx + 1) start' pend' _ ls hv2.2 hgo
+            have hne : ls ≠ [] := by
+              intro e; rw [e] at h1; simp at h1
+            exact ⟨ln, by rw [List.getLast?_cons_of_ne_nil hne]; exact h1, h2⟩
+
 /-! ## no panic inside the domain -/
 
 /-- The sum of the four inter-line penalties cannot leave `i32`. -/
